@@ -1,8 +1,11 @@
 import WpModel.Model.Wire
 import WpModel.Model.Positioned
+import WpModel.Model.FixedPages
+import WpModel.Drive.Floats
 
 namespace Wp.Drive.Positioned
 open Wp Wp.Positioned
+open Wp.Drive.Floats (dim? errStr)
 
 def position? : Sx → Option Position
   | .atom "static" => some .static
@@ -18,7 +21,25 @@ def fixedBox? : Sx → Option FixedBox
 
 def page? (x : Sx) : Option (List FixedBox) := x.list?.bind (allSome fixedBox?)
 
+/-- `(left right top bottom w h ml mr mt mb)` -/
+def fixedStyle? : Sx → Option FixedStyle
+  | .list [l, r, t, b, w, h, ml, mr, mt, mb] => do
+    pure ⟨← dim? l, ← dim? r, ← dim? t, ← dim? b, ← w.rat?, ← h.rat?, ← ml.rat?, ← mr.rat?, ← mt.rat?, ← mb.rat?⟩
+  | _ => none
+
+/-- `(id <style> late (<kid>…))` -/
+partial def fixedTree? : Sx → Option FixedTree
+  | .list [i, st, late, .list kids] => do
+    pure (.mk (← i.nat?) (← fixedStyle? st) (← late.bool?) (← allSome fixedTree? kids))
+  | _ => none
+
+/-- `(x y w h)` -/
+def rect? : Sx → Option Absolute.Rect
+  | .list [x, y, w, h] => do pure ⟨← x.rat?, ← y.rat?, ← w.rat?, ← h.rat?⟩
+  | _ => none
+
 /-- Commands:
+  `fixedtrees (<area>…) ((<tree>…)…)`      → per page `((id x y)…)`, nested fixed boxes included
   `cbowner <target> (<ancestor>…)`        → `page` | index of the ancestor that lays the box out
   `late (<ancestor>…)`                     → `true` | `false`
   `fixedpages <cx> <cy> ((<fixed>…)…)`     → per page `((id x y)…)` -/
@@ -40,6 +61,14 @@ def handle (cmd : String) (args : List Sx) : Option String :=
     pure (" ".intercalate ((layoutFixed cx cy pages).map fun pg =>
       "(" ++ " ".intercalate (pg.map fun (i, x, y) =>
         "(" ++ toString i ++ " " ++ showRat x ++ " " ++ showRat y ++ ")") ++ ")"))
+  | "fixedtrees", [.list areas, .list pages] => do
+    let areas ← allSome rect? areas
+    let pages ← allSome (fun p => p.list?.bind (allSome fixedTree?)) pages
+    pure (" ".intercalate ((layoutFixedDoc areas pages).map fun pg =>
+      match pg with
+      | .ok l => "(" ++ " ".intercalate (l.map fun (i, x, y) =>
+          "(" ++ toString i ++ " " ++ showRat x ++ " " ++ showRat y ++ ")") ++ ")"
+      | .error e => errStr e))
   | _, _ => none
 
 end Wp.Drive.Positioned
